@@ -12,6 +12,7 @@ import (
 	"sort"
 	"strings"
 	"testing"
+	"time"
 
 	pb "github.com/ipfs/boxo/ipld/unixfs/pb"
 	"github.com/ipfs/go-cid"
@@ -82,6 +83,41 @@ func describe(de testutil.DirEntry) FTree {
 	return t
 }
 
+// dupSiblingsDE: does some directory of the described tree repeat a child name?  Breadth first with a budget, so that a
+// description that doubles at every level is recognised at its first level.
+func dupSiblingsDE(de testutil.DirEntry, _ int) bool {
+	return firstDupLevel(de).Children != nil
+}
+
+func firstDupLevel(de testutil.DirEntry) testutil.DirEntry {
+	queue := []testutil.DirEntry{de}
+	for n := 0; len(queue) > 0 && n < 100000; n++ {
+		d := queue[0]
+		queue = queue[1:]
+		seen := map[string]bool{}
+		for _, c := range d.Children {
+			nm := lastSeg(c.Path)
+			if seen[nm] {
+				return d
+			}
+			seen[nm] = true
+		}
+		queue = append(queue, d.Children...)
+	}
+	return testutil.DirEntry{}
+}
+
+func dupSiblings(t FTree) bool {
+	seen := map[string]bool{}
+	for _, k := range t.Kids {
+		if seen[k.Name] || dupSiblings(k) {
+			return true
+		}
+		seen[k.Name] = true
+	}
+	return false
+}
+
 // describeRB: the tree testutil.ToDirEntryFrom read back (directories always carry a non-nil child list there)
 func describeRB(de testutil.DirEntry) FTree {
 	t := FTree{Name: lastSeg(de.Path), Path: de.Path, Root: de.Root.String(), Kids: []FTree{}}
@@ -102,7 +138,14 @@ func describeRB(de testutil.DirEntry) FTree {
 // package offers no way to make one outside "go test"): a failed requirement panics inside the testing package
 // when it tries to log, which is taken - like Goexit and t.Failed() - for "failed"; a passing f never touches the T.
 // The message carries where the failure was raised.
+// rbHung: a read-back or comparison of this process never returned (its goroutine is abandoned); the helpers are
+// not called again in this process - the case that hung is the violation, the later ones are marked "skip"
+var rbHung bool
+
 func withT(f func(t *testing.T)) (ok bool, msg string) {
+	if rbHung {
+		return false, "skip"
+	}
 	t := &testing.T{}
 	done := make(chan struct{})
 	finished := false
@@ -120,7 +163,12 @@ func withT(f func(t *testing.T)) (ok bool, msg string) {
 		f(t)
 		finished = true
 	}()
-	<-done
+	select {
+	case <-done:
+	case <-time.After(60 * time.Second):
+		rbHung = true
+		return false, "hang"
+	}
 	if len(msg) > 600 {
 		msg = msg[:600]
 	}
@@ -356,6 +404,23 @@ func runFixtureCase(fc *FixtureCase, tr *Tr) error {
 		tr.Emit(ev)
 		return nil
 	}
+	if dupSiblingsDE(de, 0) {
+		// a repeated sibling name (found top-down, level by level): with repeated sub-directories the description doubles
+		// at every level of nesting - it is recorded one level deep only, which is all Inv_C19_Siblings needs
+		sh := FTree{Name: lastSeg(de.Path), Path: de.Path, Kind: "dir", Root: de.Root.String(), Kids: []FTree{}}
+		for _, c := range firstDupLevel(de).Children {
+			k := "file"
+			if c.Children != nil {
+				k = "dir"
+			}
+			sh.Kids = append(sh.Kids, FTree{Name: lastSeg(c.Path), Path: c.Path, Kind: k, Root: c.Root.String(), Kids: []FTree{}})
+		}
+		sort.SliceStable(sh.Kids, func(i, j int) bool { return sh.Kids[i].Name < sh.Kids[j].Name })
+		ev["desc"], ev["stored"], ev["tde"], ev["shallow"] = sh, sh, sh, true
+		ev["rb"], ev["cmp"], ev["neg"] = "skip", "skip", []string{}
+		tr.Emit(ev)
+		return nil
+	}
 	desc := describe(de)
 	ev["desc"] = desc
 	stored, werr := storedTree(st, de.Root, desc.Name, de.Path)
@@ -371,9 +436,19 @@ func runFixtureCase(fc *FixtureCase, tr *Tr) error {
 	rls.NodeReifier = unixfsnode.Reify
 	var rb testutil.DirEntry
 	ev["rb"], ev["cmp"], ev["neg"] = "failed", "skip", []string{}
+	if dupSiblings(desc) {
+		// the description repeats a sibling name (reported by Inv_C19_Siblings): the comparison helper pairs every child
+		// with every same-named one and takes time exponential in the nesting depth - the helpers are not run on it
+		ev["rb"] = "skip"
+		tr.Emit(ev)
+		return nil
+	}
 	ev["tde"] = FTree{Kind: "none", Kids: []FTree{}}
 	if ok, msg := withT(func(t *testing.T) { rb = testutil.ToDirEntryFrom(t, rls, de.Root, de.Path, true) }); !ok {
 		ev["info"] = msg
+		if msg == "skip" || msg == "hang" {
+			ev["rb"] = msg
+		}
 	} else {
 		ev["rb"] = "ok"
 		ev["tde"] = describeRB(rb)
@@ -382,6 +457,9 @@ func runFixtureCase(fc *FixtureCase, tr *Tr) error {
 			ok1, msg1 := withT(func(t *testing.T) { testutil.CompareDirEntries(t, de, rb) })
 			ok2, msg2 := withT(func(t *testing.T) { testutil.CompareDirEntries(t, rb, de) })
 			ev["cmp"] = map[bool]string{true: "pass", false: "fail"}[ok1 && ok2]
+			if msg1 == "hang" || msg2 == "hang" {
+				ev["cmp"] = "hang"
+			}
 			if !ok1 || !ok2 {
 				ev["info"] = msg1 + msg2
 			}
